@@ -46,6 +46,48 @@ class Aff:
         return " + ".join(parts).replace("+ -", "- ")
 
 
+def _norm_sign(a):
+    """eq0/ne0 are sign-insensitive: make the first coefficient (symbols in sorted order, then the constant) positive."""
+    for k in sorted(a.t):
+        if a.t[k] < 0:
+            return Aff({x: -v for x, v in a.t.items()}, -a.c)
+        break
+    else:
+        if a.c < 0:
+            return Aff({}, -a.c)
+    return a
+
+
+def canon_guard(g, unsigned=()):
+    """Canonical form of a comparison guard (op, lhs, rhs, truth) over Aff operands: ('ge0', e) | ('eq0', e) | ('ne0', e) | None.
+    `a <= b`, `!(a > b)`, `b >= a`, `!(b < a)` all become ge0(b - a); strict forms subtract one (integers).  For a single unsigned symbol x:
+    x <= 0 is x == 0 and x >= 1 is x != 0."""
+    if len(g) != 4 or not isinstance(g[1], Aff) or not isinstance(g[2], Aff):
+        return None
+    op, a, b, truth = g
+    one = Aff.const(1)
+    table = {("Le", True): ("ge0", b - a), ("Le", False): ("ge0", a - b - one), ("Lt", True): ("ge0", b - a - one), ("Lt", False): ("ge0", a - b),
+             ("Gt", True): ("ge0", a - b - one), ("Gt", False): ("ge0", b - a), ("Ge", True): ("ge0", a - b), ("Ge", False): ("ge0", b - a - one),
+             ("Eq", True): ("eq0", a - b), ("Eq", False): ("ne0", a - b), ("Ne", True): ("ne0", a - b), ("Ne", False): ("eq0", a - b)}
+    r = table.get((op, truth))
+    if r is None:
+        return None
+    kind, e = r
+    if kind == "ge0" and len(e.t) == 1:
+        (x, k), = e.t.items()
+        if x in unsigned and k == -1 and e.c == 0:
+            kind, e = "eq0", Aff.sym(x)
+        elif x in unsigned and k == 1 and e.c == -1:
+            kind, e = "ne0", Aff.sym(x)
+    if kind in ("eq0", "ne0"):
+        e = _norm_sign(e)
+    return (kind, e)
+
+
+def canon_guards(guards, unsigned=()):
+    return [c for c in (canon_guard(g, unsigned) for g in guards) if c is not None]
+
+
 class Opaque:
     def __init__(self, what):
         self.what = what
